@@ -1,5 +1,6 @@
 # Property -> harness groups, tiers and bounds. Read by ./check.
 COMMON = "pkg/netpol/internal/common"
+K8S = "pkg/netpol/eval/internal/k8s"
 EVAL = "pkg/netpol/eval"
 CONNLIST = "pkg/netpol/connlist"
 DIFF = "pkg/netpol/diff"
@@ -35,6 +36,11 @@ PROPS = {
                           "(range, protocol-only, named, two entries); all ordered peer pairs; symbolic ports, port ranges, container port, CIDR bits, address",
                           "more policies/rules; other prefix lengths; IPv6", models=40),
                  thorough=ev("^ZZ_C01_(OnePolicy|SharedCidrBlocks)$", "the quick bound again (the larger menus do not finish in 15 minutes: DESIGN 10.8) with 300 natively re-run sampled paths", "as quick", models=300, menus=0)),
+            dict(pkg=K8S, harness="harness/k8s", shared="harness/shared",
+                 quick=ev("^ZZ_LEAF_RulePorts$", "leaf: the port part of one NetworkPolicy rule with 1-2 entries of 9 kinds (protocol only, defaulted protocol, port..endPort on TCP/UDP, port names http/metrics on the rule protocol, SCTP number) against a pod "
+                          "declaring http on ''/TCP/UDP and optionally metrics on TCP/UDP (symbolic numbers) or an IP destination; ruleConnections (list) and ruleConnsContain (eval, protocol in both spellings, port as decimal text) vs the oracle at a symbolic point",
+                          "more than 2 entries (thorough: 3); duplicate container-port names", models=40),
+                 thorough=ev("^ZZ_LEAF_RulePorts$", "as quick with 1-3 port entries", "more than 3 entries", models=200, menus=1)),
         ],
     ),
     "C02": dict(
@@ -62,6 +68,11 @@ PROPS = {
                           "Environment stubs: manifest scanner (in-memory directory; natively real files), standard output",
                           "cobra flag parsing and process exit status; live-cluster mode", models=40),
                  thorough=ev("^ZZ_C03_CLI", "the quick bound again with 200 natively re-run sampled paths (real files, real scanner)", "as quick", models=200, menus=0)),
+            dict(pkg=K8S, harness="harness/k8s", shared="harness/shared",
+                 quick=ev("^ZZ_LEAF_RulePorts$", "leaf: the port part of one NetworkPolicy rule with 1-2 entries of 9 kinds (protocol only, defaulted protocol, port..endPort on TCP/UDP, port names http/metrics on the rule protocol, SCTP number) against a pod "
+                          "declaring http on ''/TCP/UDP and optionally metrics on TCP/UDP (symbolic numbers) or an IP destination; ruleConnections (list) and ruleConnsContain (eval, protocol in both spellings, port as decimal text) vs the oracle at a symbolic point",
+                          "more than 2 entries (thorough: 3); duplicate container-port names", models=40),
+                 thorough=ev("^ZZ_LEAF_RulePorts$", "as quick with 1-3 port entries", "more than 3 entries", models=200, menus=1)),
         ],
     ),
     "C05": dict(
